@@ -401,7 +401,32 @@ class Ctx:
                 else:
                     self.cov['discharged'] += 1
             self.cov['theorems'].append(name)
+        if self.tier == 'thorough' and os.environ.get('VERIF_NO_COQCHK') != '1':
+            ok = self.coqchk(props_file) and ok
         return ok
+
+    def coqchk(self, props_file):
+        """Thorough tier: re-check the compiled property file and everything it depends on with the
+        independent checker; its axiom summary must be empty or a subset of the whitelisted stdlib axioms."""
+        mod = 'Emmet.' + props_file[:-2].replace('/', '.')
+        cmd = ['timeout', '1500', 'coqchk', '-silent', '-o', '-Q', COQ, 'Emmet', mod]
+        self.cov['obligations'] += 1
+        rc, out = sh(cmd, cwd=COQ, timeout=1560)
+        m = re.search(r'\* Axioms:(.*?)\n\s*\n\* Constants', out, re.S)
+        axioms = []
+        if m:
+            axioms = [a.strip() for a in m.group(1).split('\n') if a.strip() and a.strip() != '<none>']
+        unsafe = re.findall(r'\* (Constants/Inductives relying on type-in-type|Constants/Inductives relying on unsafe \(co\)fixpoints|'
+                            r'Inductives whose positivity is assumed): (?!<none>)(\S.*)', out)
+        bad = [a for a in axioms if a not in ALLOWED_AXIOMS and a.split('.')[-1] not in ALLOWED_AXIOMS
+               and not any(a.endswith(x) for x in ALLOWED_AXIOMS)]
+        self.cov.setdefault('coqchk', {})[mod] = {'rc': rc, 'axioms': axioms or ['<none>']}
+        if rc != 0 or m is None or bad or unsafe:
+            self.broken.append({'kind': 'coqchk', 'file': props_file, 'axioms': bad, 'unsafe': unsafe, 'log_tail': out[-1200:]})
+            self.say('COQCHK FAILED %s\n%s' % (mod, out[-1500:]))
+            return False
+        self.cov['discharged'] += 1
+        return True
 
     def model(self, name):
         exe, err = build_model(name)
